@@ -455,3 +455,5 @@ def run(ctx):
     boundaries.check_amounts(ctx, 'C13.RA', 'C13')
     from .. import errdisc
     errdisc.check(ctx, 'C13.RD', 'C13', 42)
+    from .. import boundaries as _b
+    _b.check_predicates(ctx, 'C13.RP', 'C13')
